@@ -252,7 +252,10 @@ class DiskCache:
         """
         try:
             raw_bytes = pickle.dumps(value)
-        except (pickle.PicklingError, TypeError, AttributeError):
+        except Exception:
+            # not picklable for whatever reason: the type (PicklingError, TypeError,
+            # AttributeError), nesting deeper than pickle can follow (RecursionError),
+            # a __getstate__ / __reduce__ that raises
             logger.warning("Cache write skipped: output not picklable for key %s", key)
             return
 
@@ -294,7 +297,8 @@ def compute_cache_key(definition_hash: str, inputs: dict[str, Any]) -> str:
     try:
         sorted_items = sorted(inputs.items())
         inputs_bytes = _pickle_by_value(sorted_items)
-    except (pickle.PicklingError, TypeError, AttributeError) as exc:
+    except Exception as exc:
+        # not picklable for whatever reason (see DiskCache.set): fall back to uncached execution
         logger.warning("Cache miss: inputs not picklable (%s)", exc)
         return ""
     content = definition_hash.encode() + inputs_bytes
